@@ -223,7 +223,7 @@ def _work(job):
     except Exception as e:  # noqa: BLE001
         res["fails"].append(["instrument:" + type(e).__name__, str(e)[:200], None])
         return res
-    ex = I.extract_blocks(sp, plain)
+    ex = I.extract_blocks(sp, plain, code)
     key2co, off2blk = {}, {}
     for coid, d in ex.items():
         term, problems, info = extract_cfg(sp, coid, d)
@@ -234,25 +234,16 @@ def _work(job):
         for k, v in info.items():
             res["stats"][k] = res["stats"].get(k, 0) + v
         # offsets of conditional jumps -> block index (same linear order in dis and in the block list)
-        oc = d["meta"].code_object  # instrumented; the original is looked up by name/first line
-        key = (oc.co_name, oc.co_firstlineno)
+        key = d["tree_index"]
         key2co[key] = coid
         oblocks = [b for b in d["blocks"] if b["orig"] and [e for e in b["orig"] if e[0] == "O"] and
                    [e for e in b["orig"] if e[0] == "O"][-1][1] in COND_OPS]
-        off2blk[key] = oblocks
-    origs = {}
-
-    def walk(c):
-        origs.setdefault((c.co_name, c.co_firstlineno), c)
-        for k in c.co_consts:
-            if hasattr(k, "co_code"):
-                walk(k)
-    walk(plain)
+        off2blk[key] = (oblocks, d["orig_code"])
     maps = {}
-    for key, oblocks in off2blk.items():
-        offs = cond_offsets(origs[key])
+    for key, (oblocks, oc) in off2blk.items():
+        offs = cond_offsets(oc)
         if [o[2] for o in offs] != [[e for e in b["orig"] if e[0] == "O"][-1][1] for b in oblocks]:
-            res["fails"].append(["harness:offset-map", f"cannot align conditional jumps of {key}", None])
+            res["fails"].append(["harness:offset-map", f"cannot align conditional jumps of code object {key}", None])
             return res
         maps[key] = {o[0]: (b["index"], o[1], o[2]) for o, b in zip(offs, oblocks)}
     pid_of = {(m.code_object_id, m.node.index): pid for pid, m in sp.existing_predicates.items()}
@@ -264,8 +255,7 @@ def _work(job):
             res["fails"].append(["behaviour-differs", f"plain {truth['exc']} instrumented {obs['exc']}", k])
             continue
         taken = set()
-        for name, first, off, dest in truth["branches"]:
-            key = (name, first)
+        for key, off, dest in truth["branches"]:
             if key not in maps or off not in maps[key]:
                 continue
             bi, fall, opname = maps[key][off]
@@ -273,7 +263,7 @@ def _work(job):
             lbl = version.get_branch_type(dis.opmap[opname])
             v = lbl if jumped else (not lbl)
             pid = pid_of.get((key2co[key], bi))
-            taken.add((pid if pid is not None else f"unregistered:{name}:{bi}", bool(v)))
+            taken.add((pid if pid is not None else f"unregistered:{key}:{bi}", bool(v)))
         reported = set()
         for pid in trace.executed_predicates:
             if trace.true_distances.get(pid) == 0.0:
@@ -285,7 +275,7 @@ def _work(job):
             missing = sorted(map(str, taken - reported))
             kind = "reported-not-taken" if extra else "taken-not-reported"
             res["fails"].append([f"branches:{kind}", f"reported-but-not-taken {extra}; taken-but-not-reported {missing}", k])
-        entered = {key2co[tuple(key)] for key in truth.get("starts", []) if tuple(key) in key2co}
+        entered = {key2co[key] for key in truth.get("starts", []) if key in key2co}
         rep_co = set(trace.executed_code_objects)
         if entered != rep_co:
             res["fails"].append(["code-objects:" + ("reported-not-entered" if rep_co - entered else "entered-not-reported"),
@@ -296,7 +286,7 @@ def _work(job):
 
 
 def _isolated_work(job):
-    r = I.isolated(_work, job, timeout=600)
+    r = I.isolated(_work, job, timeout=900)
     if "crash" in r:
         sig = "harness:timeout" if r["crash"] == "SIGALRM" else "crash:" + r["crash"]
         return {"n": job[0], "cases": [], "fails": [[sig, "child died", None]], "stats": {}}
@@ -313,7 +303,7 @@ def run(ctx: vlib.Ctx):
         ctx.coqchk()
     scratch = ctx.mkscratch()
     corpus = json.loads((vlib.VERIF / "corpus" / "C03.json").read_text())
-    n_prog = 40 if ctx.quick else 1200
+    n_prog = 40 if ctx.quick else 400
     n_inp = 4 if ctx.quick else 6
     progs = [(c["src"], c.get("specs") or []) for c in corpus]
     for s in G.SEED_PROGRAMS:
